@@ -320,3 +320,13 @@ package completion
 //@ func (*Engine).SelectTag
 //@   props C15 C01
 //@   requires evalid(e) && keymap.kmvalid(e.keymap) && all(k, 0, len(e.groups), ginv(e.groups[k])) && (len(e.groups) > 1 ==> gcycle(e))
+
+// groupNonDescribed sorts the candidates of one tag into described and undescribed ones (C15: every candidate
+// offered by the completer is shown): none is dropped on the way. The "error passed as a completion" filter
+// of the pinned code is a contradiction (a value cannot both start with prefix+"ERR" and equal prefix+"_"),
+// so it drops nothing; a change that makes it live fails [no-candidate-dropped].
+//@ func (*Engine).groupNonDescribed
+//@   props C15
+//@   requires e != nil && comps != nil
+//@   ensures [no-candidate-dropped] len(vals) + len(noDescVals) == len(values)
+//@   loop 1 invariant -1 <= rangeindex && rangeindex < len(values) && len(vals) + len(noDescVals) == rangeindex + 1
